@@ -328,6 +328,11 @@ impl<'p> Machine<'p> {
             Op::Join { t: c } => self.th[c as usize].started && self.th[c as usize].done,
             Op::Park => self.th[t].park_token,
             Op::Lock { m } => self.mutex[m as usize].owner.is_none(),
+            // (a no-op if the thread holds m itself: the interpreter skips it then)
+            Op::UnwindLock { m } => {
+                let o = self.mutex[m as usize].owner;
+                o.is_none() || o == Some(tid)
+            }
             Op::RLock { l } => self.rw[l as usize].writer.is_none(),
             Op::WLock { l } => {
                 let r = &self.rw[l as usize];
@@ -740,6 +745,17 @@ impl<'p> Machine<'p> {
                     res = Some(1);
                 } else {
                     res = Some(0);
+                }
+            }
+            Op::UnwindLock { m } => {
+                let e = self.push_ev(t, pc, EK::Sync, NOLOC, MO::Rlx);
+                let st = &mut self.mutex[m as usize];
+                if st.owner.is_none() {
+                    // acquire and release in one step (nothing can run in between)
+                    if let Some(u) = st.last_unlock {
+                        self.g.extra.push((u, e));
+                    }
+                    st.last_unlock = Some(e);
                 }
             }
             Op::Unlock { m } => {
